@@ -1,7 +1,7 @@
 (* Replacing a system simulation by its contents does not change what the devices see, over whole
    runs of the master in simulation time: the nested run and the run of [inline cfg c lvc] tick at
    the same times and update the same devices with equivalent inputs. *)
-From TV Require Import Base Model.Wiring Model.Ticker Model.Component Model.Sim Model.SimTime Model.Inline
+From TV Require Import Base Model.Wiring Model.Ticker Model.Component Model.Sim Model.SimTime Model.Inline Model.NSim
   Proofs.WiringP Proofs.SimP Proofs.NonInterfP Proofs.FrameP Proofs.ExtentP Proofs.LatestP Proofs.EqvP
   Proofs.NonInterfLoopP Proofs.WakeWfP Proofs.InlineP.
 Open Scope Z_scope.
@@ -316,16 +316,71 @@ Proof.
   destruct T as [HB2 Ho2]. apply IH; [exact HB2 | apply obs_rel_app; assumption].
 Qed.
 
+(* scripts: master ticks interleaved with interrupts of the devices outside the system *)
+Definition outer_script (script : list item) : Prop := forall y w, In (IStim y w) script -> In y outs.
+
+Lemma B_stim sN sF y w : B sN sF -> In y outs -> B (stim sN y w) (stim sF y w).
+Proof.
+  intros HB Hy. assert (Hlv : lvc <> top) by exact (sh_lv _ _ _ _ _ _ Hsh).
+  destruct (nd_facts _ _ _ _ _ _ Hsh) as [Hc_all [_ [_ [_ [_ Hnd]]]]].
+  assert (Hyc : y <> c) by (intros E; subst y; apply Hc_all; apply in_outs_all; exact Hy).
+  assert (Hyd : forall d, In d inn -> d <> y).
+  { intros d Hd E. subst d. unfold outs_ in Hy. apply in_app_iff in Hy.
+    destruct Hy as [Hy|Hy]; [apply (NoDup_app_disjoint pre (inn ++ post) y Hnd Hy); apply in_app_iff; left; exact Hd|].
+    rewrite app_assoc in Hnd. apply (NoDup_app_disjoint (pre ++ inn) post y Hnd); [apply in_app_iff; right; exact Hd | exact Hy]. }
+  unfold stim. rewrite (b_wo _ _ HB y Hy).
+  set (v := match lookup y (wake_of sF top) with Some w0 => Z.min w w0 | None => w end).
+  constructor.
+  - exact (b_dev _ _ HB).
+  - intros y' Hy'. rewrite !wake_of_set_wake, !lookup_upd, (b_wo _ _ HB y' Hy'). reflexivity.
+  - intros d Hd. rewrite wake_of_set_wake_other by exact Hlv. rewrite wake_of_set_wake, lookup_upd_other by (apply Hyd; exact Hd). apply (b_wi _ _ HB d Hd).
+  - rewrite wake_of_set_wake, wake_of_set_wake_other by exact Hlv. rewrite lookup_upd_other by (intros E; apply Hyc; symmetry; exact E). exact (b_wc _ _ HB).
+  - exact (b_int _ _ HB).
+  - exact (b_tk _ _ HB).
+  - apply wake_wf_set; [exact (b_wfN _ _ HB) | apply NoDup_keys_upd; apply (b_wfN _ _ HB)|].
+    intros k Hk. apply in_keys_upd in Hk. destruct Hk as [E|Hk]; [|apply (proj2 (b_wfN _ _ HB top)); exact Hk].
+    subst k. rewrite (sh_top _ _ _ _ _ _ Hsh), map_app. cbn [map fst]. unfold outs_ in Hy. apply in_app_iff in Hy. apply in_app_iff.
+    destruct Hy as [Hy|Hy]; [left | right; right]; unfold dv; rewrite map_map; cbn [fst]; rewrite map_id; exact Hy.
+  - apply wake_wf_set; [exact (b_wfF _ _ HB) | apply NoDup_keys_upd; apply (b_wfF _ _ HB)|].
+    intros k Hk. apply in_keys_upd in Hk. destruct Hk as [E|Hk]; [|apply (proj2 (b_wfF _ _ HB top)); exact Hk].
+    subst k. rewrite (inline_top_order _ _ _ _ _ _ Hsh), !map_app. unfold dv. rewrite !map_map. cbn [fst]. rewrite !map_id.
+    unfold outs_ in Hy. apply in_app_iff in Hy. apply in_app_iff.
+    destruct Hy as [Hy|Hy]; [left; exact Hy | right; apply in_app_iff; right; exact Hy].
+Qed.
+
+Theorem script_inline f : forall script sN sF obN obF,
+  outer_script script -> B sN sF -> obs_rel obN obF ->
+  let '(sN', obN') := sim_script cfg devf (S f) script sN obN in
+  let '(sF', obF') := sim_script cfgF devf (S f) script sF obF in
+  B sN' sF' /\ obs_rel obN' obF'.
+Proof.
+  induction script as [|[|y w] r IH]; intros sN sF obN obF Hok HB Ho; cbn [sim_script].
+  - split; assumption.
+  - assert (Hok' : outer_script r) by (intros y w Hi; apply (Hok y w); right; exact Hi).
+    pose proof (master_tick f sN sF HB) as T.
+    destruct (first_wakeups (wake_of sN top)) as [[m rN]|], (first_wakeups (wake_of sF top)) as [[m' rF]|]; try contradiction;
+      [|apply IH; assumption].
+    destruct T as [E T]. subst m'. cbv zeta in T.
+    destruct (tick_level cfg devf (S f) top m rN [] _) as [[sN2 outN] oN].
+    destruct (tick_level cfgF devf (S f) top m rF [] _) as [[sF2 outF] oF].
+    destruct T as [HB2 Ho2]. apply IH; [exact Hok' | exact HB2 | apply obs_rel_app; assumption].
+  - apply IH; [intros y' w' Hi; apply (Hok y' w'); right; exact Hi | | exact Ho].
+    apply B_stim; [exact HB | apply (Hok y w); left; reflexivity].
+Qed.
+
 Lemma map_fst_dv l : map fst (map dv l) = l.
 Proof. unfold dv. rewrite map_map. cbn [fst]. apply map_id. Qed.
 
-(* whole runs: the initial tick of every component, then the loop *)
-Theorem run_inline f n initial horizon :
-  let '(sN, obN, doneN) := sim_run cfg devf n (S f) initial horizon in
-  let '(sF, obF, doneF) := sim_run cfgF devf n (S f) initial horizon in
-  B sN sF /\ obs_rel obN obF /\ doneN = doneF.
+(* the initial tick of every component establishes the relation *)
+Lemma initial_inline f initial :
+  let rN := map fst (l_order (level_of cfg top)) in
+  let rF := map fst (l_order (level_of cfgF top)) in
+  let s0 := set_wake s_init top [] in
+  let '(sN', _, obN) := tick_level cfg devf (S f) top initial rN [] (log_tick s0 top initial rN) in
+  let '(sF', _, obF) := tick_level cfgF devf (S f) top initial rF [] (log_tick s0 top initial rF) in
+  B sN' sF' /\ obs_rel obN obF.
 Proof.
-  unfold sim_run.
+  cbv zeta. unfold tick_level.
   assert (Hlv : lvc <> top) by exact (sh_lv _ _ _ _ _ _ Hsh).
   destruct (nd_facts _ _ _ _ _ _ Hsh) as [Hc_all [He_all [Hx_all [Hce [Hcx Hnd]]]]].
   set (rN := map fst (l_order (level_of cfg top))). set (rF := map fst (l_order (level_of cfgF top))).
@@ -373,9 +428,30 @@ Proof.
     - specialize (T8 HcN). subst tk. split; [|exact T2]. constructor; try assumption.
       + rewrite T5. destruct (min_wake (wake_of sN2 lvc)); reflexivity.
       + apply T6. reflexivity. }
-  unfold tick_level.
-  destruct (tick_with cfg devf (on_tick_level cfg devf (S f)) top initial rN [] (log_tick s0 top initial rN)) as [[sN2 outN] oN].
-  destruct (tick_with cfgF devf (on_tick_level cfgF devf (S f)) top initial rF [] (log_tick s0 top initial rF)) as [[sF2 outF] oF].
-  destruct T' as [HB Ho]. apply (loop_inline f horizon n sN2 sF2 oN oF HB Ho).
+  exact T'.
+Qed.
+
+(* whole runs: the initial tick of every component, then the loop *)
+Theorem run_inline f n initial horizon :
+  let '(sN, obN, doneN) := sim_run cfg devf n (S f) initial horizon in
+  let '(sF, obF, doneF) := sim_run cfgF devf n (S f) initial horizon in
+  B sN sF /\ obs_rel obN obF /\ doneN = doneF.
+Proof.
+  unfold sim_run. pose proof (initial_inline f initial) as T. cbv zeta in T.
+  destruct (tick_level cfg devf (S f) top initial _ [] _) as [[sN2 outN] oN].
+  destruct (tick_level cfgF devf (S f) top initial _ [] _) as [[sF2 outF] oF].
+  destruct T as [HB Ho]. apply (loop_inline f horizon n sN2 sF2 oN oF HB Ho).
+Qed.
+
+(* the same for scripts with interrupts of the outer devices *)
+Theorem script_run_inline f initial script : outer_script script ->
+  let '(sN, obN) := sim_script_from_start cfg devf (S f) initial script in
+  let '(sF, obF) := sim_script_from_start cfgF devf (S f) initial script in
+  B sN sF /\ obs_rel obN obF.
+Proof.
+  intros Hok. unfold sim_script_from_start. pose proof (initial_inline f initial) as T. cbv zeta in T.
+  destruct (tick_level cfg devf (S f) top initial _ [] _) as [[sN2 outN] oN].
+  destruct (tick_level cfgF devf (S f) top initial _ [] _) as [[sF2 outF] oF].
+  destruct T as [HB Ho]. apply (script_inline f script sN2 sF2 oN oF Hok HB Ho).
 Qed.
 End Loop.
